@@ -54,27 +54,35 @@ package collection
 // ---------------------------------------------------------------- class accessors and class interfaces
 
 //@ assume func Array
+//@   nilok
 //@   nopanic
 //@   ensures result != nil
 //@ assume func List
+//@   nilok
 //@   nopanic
 //@   ensures result != nil
 //@ assume func Set
+//@   nilok
 //@   nopanic
 //@   ensures result != nil
 //@ assume func Stack
+//@   nilok
 //@   nopanic
 //@   ensures result != nil
 //@ assume func Queue
+//@   nilok
 //@   nopanic
 //@   ensures result != nil
 //@ assume func Catalog
+//@   nilok
 //@   nopanic
 //@   ensures result != nil
 //@ assume func Map
+//@   nilok
 //@   nopanic
 //@   ensures result != nil
 //@ assume func Association
+//@   nilok
 //@   nopanic
 //@   ensures result != nil
 
@@ -134,3 +142,238 @@ package collection
 //@ func (array_).SetValues
 //@   props C01 C18
 //@   implements Updatable.SetValues
+
+// ---------------------------------------------------------------- list_ (C01)
+
+//@ type *list_
+//@   view view(this.values_)
+//@   invariant this.class_ != nil && this.values_ != nil
+
+//@ iface ListClassLike.Make
+//@   nopanic
+//@   ensures fresh(result) && result != nil && view(result) == empty()
+//@ iface ListClassLike.MakeFromArray
+//@   nopanic
+//@   ensures fresh(result) && result != nil && view(result) == view(values)
+//@ iface ListClassLike.MakeFromSequence
+//@   nopanic
+//@   ensures fresh(result) && result != nil && view(result) == view(values)
+//@ iface ListClassLike.Concatenate
+//@   nopanic
+//@   ensures fresh(result) && result != nil && view(result) == view(first) ++ view(second)
+
+//@ iface Expandable.InsertValue
+//@   let n := len(view(this))
+//@   modifies view(this)
+//@   ensures slot <= n && view(this) == insert(old(view(this)), slot, value)
+//@   xensures slot > n && view(this) == old(view(this))
+//@ iface Expandable.InsertValues
+//@   let n := len(view(this))
+//@   modifies view(this)
+//@   ensures slot <= n && view(this) == old(view(this))[0:slot] ++ old(view(values)) ++ old(view(this))[slot:n]
+//@   xensures slot > n && view(this) == old(view(this))
+//@ iface Expandable.AppendValue
+//@   nopanic
+//@   modifies view(this)
+//@   ensures view(this) == old(view(this)) ++ single(value)
+//@ iface Expandable.AppendValues
+//@   nopanic
+//@   modifies view(this)
+//@   ensures view(this) == old(view(this)) ++ old(view(values))
+//@ iface Expandable.RemoveValue
+//@   let n := len(view(this))
+//@   modifies view(this)
+//@   ensures valid(index, n) && result == old(view(this))[norm(index, n)] && view(this) == remove(old(view(this)), norm(index, n))
+//@   xensures !valid(index, n) && view(this) == old(view(this))
+//@ iface Expandable.RemoveValues
+//@   let n := len(view(this))
+//@   let f := norm(first, n)
+//@   let l := norm(last, n)
+//@   modifies view(this)
+//@   ensures valid(first, n) && valid(last, n) && f <= l + 1
+//@   ensures fresh(result) && result != nil && view(result) == old(view(this))[f : l + 1]
+//@   ensures view(this) == old(view(this))[0:f] ++ old(view(this))[l + 1 : n]
+//@   xensures view(this) == old(view(this)) && (!valid(first, n) || !valid(last, n) || f > l + 1)
+//@ iface Expandable.RemoveAll
+//@   nopanic
+//@   modifies view(this)
+//@   ensures view(this) == empty()
+
+// lmem(s, x): some element of s is structurally equal (ceq) to x; lwit is its Skolem witness.
+//@ declare lmem(Seq, U) Bool
+//@ declare lwit(Seq, U) Int
+//@ axiom lmem_elim: forall s Seq, x U :: lmem(s, x) ==> 0 <= lwit(s, x) && lwit(s, x) < len(s) && ceq(s[lwit(s, x)], x)
+//@ axiom lmem_intro: forall s Seq, x U, i Int :: 0 <= i && i < len(s) && ceq(s[i], x) ==> lmem(s, x)
+
+//@ iface ListLike.GetIndex
+//@   let n := len(view(this))
+//@   nopanic
+//@   ensures 0 <= result && result <= n
+//@   ensures result == 0 ==> !lmem(view(this), value)
+//@   ensures result != 0 ==> ceq(view(this)[result - 1], value) && (forall i :: 0 <= i && i < result - 1 ==> !ceq(view(this)[i], value))
+//@ iface ListLike.ContainsValue
+//@   nopanic
+//@   ensures result <==> lmem(view(this), value)
+//@ iface ListLike.ContainsAny
+//@   nopanic
+//@   ensures result <==> (exists j :: 0 <= j && j < len(view(values)) && lmem(view(this), view(values)[j]))
+//@ iface ListLike.ContainsAll
+//@   nopanic
+//@   ensures result <==> (forall j :: 0 <= j && j < len(view(values)) ==> lmem(view(this), view(values)[j]))
+
+//@ func (*listClass_).Make
+//@   props C01 C18
+//@   implements ListClassLike.Make
+//@   ensures inv(list_, result)
+//@ func (*listClass_).MakeFromArray
+//@   props C01 C18
+//@   implements ListClassLike.MakeFromArray
+//@ func (*listClass_).MakeFromSequence
+//@   props C01 C18
+//@   implements ListClassLike.MakeFromSequence
+//@   loop 1:
+//@     invariant snap(iterator) == old(view(values)) && 0 <= pos(iterator) && pos(iterator) <= len(snap(iterator))
+//@     invariant list != nil && fresh(list) && view(list) == old(view(values))[0 : pos(iterator)]
+//@     decreases len(snap(iterator)) - pos(iterator)
+//@ func (*listClass_).Concatenate
+//@   props C01 C16 C18
+//@   implements ListClassLike.Concatenate
+
+//@ func (*list_).GetValue
+//@   props C01
+//@   implements Accessible.GetValue
+//@ func (*list_).GetValues
+//@   props C01 C18
+//@   implements Accessible.GetValues
+//@ func (*list_).IsEmpty
+//@   props C01
+//@   implements Sequential.IsEmpty
+//@ func (*list_).GetSize
+//@   props C01
+//@   implements Sequential.GetSize
+//@ func (*list_).AsArray
+//@   props C01 C18
+//@   implements Sequential.AsArray
+//@ func (*list_).GetIterator
+//@   props C01 C17 C18
+//@   implements Sequential.GetIterator
+//@ func (*list_).SetValue
+//@   props C01
+//@   implements Updatable.SetValue
+//@ func (*list_).SetValues
+//@   props C01 C18
+//@   implements Updatable.SetValues
+
+//@ func (*list_).InsertValue
+//@   props C01 C13 C02
+//@   implements Expandable.InsertValue
+//@   let n := len(view(this))
+//@   loop 1:
+//@     invariant slot <= n && 0 <= index && index <= n + 1 && len(view(array)) == n + 1 && array != nil && fresh(array)
+//@     invariant snap(iterator) == old(view(this)) && pos(iterator) == ite(index > slot, index - 1, index) && view(this) == old(view(this))
+//@     invariant forall j :: 0 <= j && j < index ==> view(array)[j] == insert(old(view(this)), slot, value)[j]
+//@     decreases n + 1 - index
+
+//@ func (*list_).InsertValues
+//@   props C01 C18
+//@   implements Expandable.InsertValues
+//@   let n := len(view(this))
+//@   let m := len(view(values))
+//@   let target := view(this)[0:slot] ++ view(values) ++ view(this)[slot:n]
+//@   loop 1:
+//@     invariant slot <= n && 0 <= index && index <= n + m && len(view(array)) == n + m && array != nil && fresh(array)
+//@     invariant snap(iterator) == old(view(this)) && view(this) == old(view(this)) && view(values) == old(view(values))
+//@     invariant (!inserted ==> index <= slot && pos(iterator) == index) && (inserted ==> index >= slot + m && pos(iterator) == index - m)
+//@     invariant forall j :: 0 <= j && j < index ==> view(array)[j] == target[j]
+//@     invariant unchanged(pos)
+//@     decreases 2 * (n + m - index) + ite(inserted, 0, 1)
+//@   loop 2:
+//@     invariant snap(iterator2) == old(view(values)) && 0 <= pos(iterator2) && pos(iterator2) <= m && index == slot + pos(iterator2)
+//@     invariant len(view(array)) == n + m && pos(iterator) == slot && view(this) == old(view(this)) && view(values) == old(view(values))
+//@     invariant forall j :: 0 <= j && j < index ==> view(array)[j] == target[j]
+//@     invariant unchanged(pos)
+//@     decreases m - pos(iterator2)
+
+//@ func (*list_).AppendValue
+//@   props C01 C03
+//@   implements Expandable.AppendValue
+//@   let n := len(view(this))
+//@   loop 1:
+//@     invariant 0 <= index && index <= n && pos(iterator) == index && snap(iterator) == old(view(this)) && len(view(array)) == n + 1
+//@     invariant array != nil && fresh(array) && view(this) == old(view(this))
+//@     invariant forall j :: 0 <= j && j < index ==> view(array)[j] == old(view(this))[j]
+//@     decreases n - index
+
+//@ func (*list_).AppendValues
+//@   props C01 C18
+//@   implements Expandable.AppendValues
+//@   let n := len(view(this))
+//@   let m := len(view(values))
+//@   loop 1:
+//@     invariant 0 <= index && index <= n && pos(iterator) == index && snap(iterator) == old(view(this)) && len(view(array)) == n + m
+//@     invariant array != nil && fresh(array) && view(this) == old(view(this)) && view(values) == old(view(values))
+//@     invariant forall j :: 0 <= j && j < index ==> view(array)[j] == old(view(this))[j]
+//@     decreases n - index
+//@   loop 2:
+//@     invariant n <= index && index <= n + m && pos(iterator) == index - n && snap(iterator) == old(view(values)) && len(view(array)) == n + m
+//@     invariant array != nil && fresh(array) && view(this) == old(view(this))
+//@     invariant forall j :: 0 <= j && j < index ==> view(array)[j] == (old(view(this)) ++ old(view(values)))[j]
+//@     decreases n + m - index
+
+//@ func (*list_).RemoveValue
+//@   props C01 C13 C02 C03
+//@   implements Expandable.RemoveValue
+//@   let n := len(view(this))
+//@   let k := norm(index, n)
+//@   loop 1:
+//@     invariant valid(entry(index), n) && 0 <= pos(iterator) && pos(iterator) <= n && snap(iterator) == old(view(this)) && view(this) == old(view(this))
+//@     invariant counter == k + 1 - pos(iterator) && index == ite(pos(iterator) > k, pos(iterator), pos(iterator) + 1)
+//@     invariant len(view(array)) == n - 1 && array != nil && fresh(array) && removed == old(view(this))[k]
+//@     invariant forall j :: 0 <= j && j < index - 1 ==> view(array)[j] == remove(old(view(this)), k)[j]
+//@     decreases n - pos(iterator)
+
+//@ func (*list_).RemoveValues
+//@   props C01 C18
+//@   implements Expandable.RemoveValues
+//@   let n := len(view(this))
+//@   let f := norm(first, n)
+//@   let l := norm(last, n)
+//@   loop 1:
+//@     invariant valid(entry(first), n) && valid(entry(last), n) && f <= l + 1 && first == f + 1 && last == l + 1
+//@     invariant counter == pos(iterator) && 0 <= counter && counter <= n && snap(iterator) == old(view(this)) && view(this) == old(view(this))
+//@     invariant arrayIndex == ite(counter <= f, counter, ite(counter <= l + 1, f, counter - (l + 1 - f)))
+//@     invariant removedIndex == ite(counter <= f, 0, ite(counter <= l + 1, counter - f, l + 1 - f))
+//@     invariant len(view(array)) == n - (l + 1 - f) && len(view(removed)) == l + 1 - f && array != nil && removed != nil && fresh(array) && fresh(removed) && array != removed
+//@     invariant forall j :: 0 <= j && j < arrayIndex ==> view(array)[j] == (old(view(this))[0:f] ++ old(view(this))[l + 1 : n])[j]
+//@     invariant forall j :: 0 <= j && j < removedIndex ==> view(removed)[j] == old(view(this))[f + j]
+//@     decreases n - counter
+
+//@ func (*list_).RemoveAll
+//@   props C01 C13
+//@   implements Expandable.RemoveAll
+
+//@ func (*list_).GetIndex
+//@   props C01 C03
+//@   implements ListLike.GetIndex
+//@   let n := len(view(this))
+//@   loop 1:
+//@     invariant -1 <= rangeindex && rangeindex < n + 1 && (n > 0 ==> rangeindex < n)
+//@     invariant forall i :: 0 <= i && i <= rangeindex ==> !ceq(view(this)[i], value)
+//@     decreases n - rangeindex
+//@ func (*list_).ContainsValue
+//@   props C01
+//@   implements ListLike.ContainsValue
+//@ func (*list_).ContainsAny
+//@   props C01
+//@   implements ListLike.ContainsAny
+//@   loop 1:
+//@     invariant snap(iterator) == old(view(values)) && 0 <= pos(iterator) && pos(iterator) <= len(snap(iterator))
+//@     invariant forall j :: 0 <= j && j < pos(iterator) ==> !lmem(view(this), old(view(values))[j])
+//@     decreases len(snap(iterator)) - pos(iterator)
+//@ func (*list_).ContainsAll
+//@   props C01
+//@   implements ListLike.ContainsAll
+//@   loop 1:
+//@     invariant snap(iterator) == old(view(values)) && 0 <= pos(iterator) && pos(iterator) <= len(snap(iterator))
+//@     invariant forall j :: 0 <= j && j < pos(iterator) ==> lmem(view(this), old(view(values))[j])
+//@     decreases len(snap(iterator)) - pos(iterator)
